@@ -99,6 +99,24 @@ Theorem C12_coeff_zero_iff_independent : forall p x,
 Proof. exact coeff_zero_iff_independent. Qed.
 Print Assumptions C12_coeff_zero_iff_independent.
 
+(* LinearPolynomial._substitute_known_variables (the code since 0fa6448; Model/Poly.substitute, tied to
+   the code by the operation-sequence correspondence): it never changes the value ... *)
+Theorem C12_substitute_sound : forall w rho p, wagrees w rho -> eval (fst (substitute w p)) rho = eval p rho.
+Proof. exact substitute_sound. Qed.
+Print Assumptions C12_substitute_sound.
+
+(* ... and it is complete: when nothing is being computed and "is defined through" is well founded
+   (rank rk), no variable of the result is settled -- what is known, or denoted by another variable,
+   never survives, so the same quantity is never denoted by two variables and cancels *)
+Theorem C12_substitute_complete : forall w (rk : var -> nat),
+  awaiting w = [] ->
+  (forall x y, lookupv (settled w) x = Some (VVar y) -> (rk y < rk x)%nat) ->
+  (forall x p y, lookupv (settled w) x = Some (VPoly p) -> In y (vars p) -> (rk y < rk x)%nat) ->
+  forall p, (forall y, In y (vars p) -> (rk y < sub_fuel)%nat) ->
+  forall z, In z (vars (fst (substitute w p))) -> lookupv (settled w) z = None.
+Proof. exact substitute_complete. Qed.
+Print Assumptions C12_substitute_complete.
+
 (* a `.link` after the base has been set by `.link` or by a leading `. =`: address-conflict,
    whatever surrounds it *)
 Theorem C12_second_link_rejected : forall pre s e mid e2 post,
@@ -145,6 +163,13 @@ Proof. exact dot_backward_program. Qed.
 Print Assumptions C12_dot_backward_program.
 
 (* ---- non-vacuity ---- *)
+(* the shape that used to be rejected:  x = e / s: .word 1,2 / .link x - s / e:
+   the link expression is -LA + x with LA (0) settled to the Deferred d (1), which is being computed,
+   and the symbol x (2) settled to LA + 4: the substitution now yields the constant 4 *)
+Example C12_ex_substitute :
+  substitute (World [(0, VVar 1); (2, VPoly (addc (pvar 0) 4))] [1] []) (add (neg (pvar 0)) (pvar 2))
+  = (Poly [] 4, []).
+Proof. vm_compute. reflexivity. Qed.
 (* .link 1000 + e - s / s: .word 1,2 / e:      base 0o1004 *)
 Example C12_ex_solved :
   run [SLink (LAdd (LConst 512) (LSub (LLabel 1) (LLabel 0))); SLabel; SBytes [1;0;2;0]; SLabel]
